@@ -12,7 +12,7 @@ RULE = ("full wallet W from a random seed x both networks; export node E at a ra
         "allowed above E); ALL six public version prefixes over the run; watch-only wallet V = from_extended_key(E.xpub(v)); "
         "non-hardened sub-paths of length 0..5 with edge indexes; five address kinds; every string leaf V returns is "
         "classified by an independent decoder; distinct = distinct (monitor, case) digests"
-        " EXTENSIONS: + watch-only wallets built on caller-parsed nodes (string, bytes, streams, default network flag), the full wallet asked for the private data of the same node first, listings ending at 2^31, 2^18+600 further derivations on the parent of held watch-only children (fast mode)")
+        " EXTENSIONS: + watch-only wallets built on caller-parsed nodes (string, bytes, streams, default network flag), the full wallet asked for the private data of the same node first, listings ending at 2^31, 2^18+600 further derivations on the parent of held watch-only children (fast mode), one public node-level listing call of K-1 .. 2K+1 rows for every harvested threshold K")
 LEVEL_TEXT = ("For each (W, E, version) the real watch-only wallet's nodes, addresses and extended public keys are compared "
               "with the reference derivation below E (which equals what the full wallet computes, also cross-checked on the "
               "real full wallet); private-data requests must raise or be None; hardened derivation must raise; every string "
@@ -287,11 +287,21 @@ def run(ctx):
         from .c13 import judge_capacity
         judge_capacity(ctx, {"seed": gen.rbytes(ctx.rnd, 32), "testnet": bool(ctx.seed & 1), "kind": "public",
                              "n": (1 << 18) + 600 if not ctx.thorough else (1 << 20) + 600, "fast": True, "how": "mixed"})
+    # ONE listing call of n rows on a PUBLIC parent, n aimed at every threshold written down in the code under test
+    # (vpkg.harvest / vpkg.longrun): count, child numbers, depth / fingerprint / path text, and sampled rows against the same
+    # child derived alone
+    from .. import longrun
+    for case in longrun.node_listing_cases(ctx, "pub", gen.rbytes(ctx.rnd, 32)):
+        longrun.judge_node_listing(ctx, "long_listing", "C14", case)
+    ctx.extra["harvested_thresholds"] = longrun.thresholds()
 
 
 def replay(ctx, monitor, case):
     if monitor == "capacity":
         from .c13 import judge_capacity
         return judge_capacity(ctx, case)
+    if monitor == "long_listing":
+        from .. import longrun
+        return longrun.judge_node_listing(ctx, "long_listing", "C14", case)
     case.pop("sub", None), case.pop("index", None), case.pop("via", None), case.pop("interval", None), case.pop("looked_up_first", None)
     judge_triple(ctx, case)
